@@ -81,37 +81,15 @@ Fixpoint dedup_sf (l : list sfac) (seen : list sfac) : list sfac :=
   match l with [] => [] | x :: r => if mem_sf x seen then dedup_sf r seen else x :: dedup_sf r (x :: seen) end.
 Definition mk_st (fs : list sfac) (sc : Qc) : sterm := {| st_f := dedup_sf fs []; st_scale := sc |}.
 
-Fixpoint find_merge (st : sterm) (terms : list sterm) : option (sterm * sfac) :=
-  match terms with
-  | [] => None
-  | e :: rest =>
-      let d := sdiff (st_f st) (st_f e) in
-      if (length (st_f st) - 1 =? length (st_f e))%nat && (length d =? 1)%nat then
-        match d with
-        | fnew :: _ => if sf_red fnew then Some (e, fnew) else find_merge st rest
-        | [] => find_merge st rest
-        end
-      else find_merge st rest
-  end.
 Definition add_term (ts : list sterm) (t : sterm) := if mem_st t ts then ts else ts ++ [t].
 Definition remove_term (ts : list sterm) (t : sterm) := filter (fun x => negb (st_eqb x t)) ts.
-Fixpoint insert_by_len (t : sterm) (l : list sterm) :=
-  match l with [] => [t] | x :: r => if (length (st_f x) <? length (st_f t))%nat then x :: insert_by_len t r else t :: l end.
-Definition sort_by_len (l : list sterm) := fold_right insert_by_len [] l.      (* stable *)
-Fixpoint simplify (fuel : nat) (ts : list sterm) : list sterm :=
-  match fuel with
-  | O => ts
-  | S fuel' =>
-      fold_left (fun terms st =>
-        match find_merge st terms with
-        | Some (e, fnew) =>
-            let merged := mk_st (map (fun f => if sf_eqb f fnew then (sf_expr f, false) else f) (st_f st))
-                                (st_scale st) in                          (* scale=scoped_term.scale *)
-            simplify fuel' (add_term (remove_term terms e) merged)
-        | None => add_term terms st
-        end) (sort_by_len ts) []
-  end.
-Definition nred (ts : list sterm) := fold_right (fun t n => (length (filter sf_red (st_f t)) + n)%nat) O ts.
+(* _simplify_scoped_terms: the algorithm acts on the factor sets only (equality, hashing, the merge rule and the sort key all
+   ignore the scale), so it is the function [Scope.simplify]; every scoped term of one term's span carries that term's
+   literal scale, and a merged term is given `scoped_term.scale`, i.e. that same scale. *)
+Definition simplify (fuel : nat) (ts : list sterm) : list sterm :=
+  let sc := match ts with t :: _ => st_scale t | [] => Q2Qc 1 end in
+  map (fun fs => {| st_f := fs; st_scale := sc |}) (Scope.simplify fuel (map st_f ts)).
+Definition nred (ts : list sterm) := Scope.nred (map st_f ts).
 
 (* itertools.product over per-factor option lists; None = "1" (factor omitted) *)
 Fixpoint prod_opts (opts : list (list (option sfac))) : list (list (option sfac)) :=
@@ -182,48 +160,64 @@ Definition dict_update (d kv : list (str * column)) := fold_left (fun acc p => d
 
 Definition ones (n : nat) : column := repeat (Some (Q2Qc 1)) n.
 
+(* _get_scoped_terms: for each term, the scoped terms it contributes, threading the set `spanned` *)
+Definition evf_of (evs : list (str * ev)) (t : term) : list (factor * ev) :=
+  flat_map (fun f => match lookup_ev evs (fx f) with Some v => [(f, v)] | None => [] end) t.
+Definition scope_step (fr : bool) (evs : list (str * ev)) (acc : list (list sterm) * list sterm) (t : term) : list (list sterm) * list sterm :=
+  let '(done, spanned) := acc in
+  let evf := evf_of evs t in
+  match evf with
+  | [] => (done ++ [[]], spanned)
+  | _ =>
+    if has_zero evf then (done ++ [[]], spanned) else
+    if fr then
+      let span := filter (fun s => negb (mem_st s spanned)) (spanned_by evf) in
+      (done ++ [simplify (S (nred span)) span], spanned ++ span)
+    else (done ++ [[unreduced_term evf]], spanned)
+  end.
+Definition get_scoped_terms (fr : bool) (evs : list (str * ev)) (terms : list term) : list (list sterm) :=
+  fst (fold_left (scope_step fr evs) terms ([], [])).
+
 Record out := { o_names : list str; o_cols : list column; o_drop : list nat; o_struct : list (list (list (str * bool) * Qc)) }.
 
 Fixpoint ins_n (x : nat) (l : list nat) := match l with [] => [x] | y :: r => if (x <? y)%nat then x :: l else if (x =? y)%nat then l else y :: ins_n x r end.
 
+(* ---------- step 1: the factor pool, evaluation, nulls, the drop set ---------- *)
+Definition pool_of (terms : list term) : list factor :=
+  fold_left (fun acc f => if mem_s (fx f) (map fx acc) then acc else acc ++ [f]) (concat terms) [].
+Fixpoint eval_pool (d : frame) (l : list factor) (acc : list (str * ev)) : res (list (str * ev)) :=
+  match l with
+  | [] => inl (rev acc)
+  | f :: r => match eval_factor d f with inl v => eval_pool d r ((fx f, v) :: acc) | inr e => inr e end
+  end.
+Definition all_nulls (evs : list (str * ev)) : list nat := flat_map (fun p => nulls_of (snd p)) evs.
+(* the set the caller passed in is extended in place and then sorted *)
+Definition drop_set (c : cfg) (evs : list (str * ev)) : list nat :=
+  match na_action c with
+  | NaDrop => fold_right ins_n [] (caller_drop c ++ all_nulls evs)
+  | _ => fold_right ins_n [] (caller_drop c)
+  end.
+
+(* ---------- step 3: columns of one scoped term ---------- *)
+Definition cols_of (evs : list (str * ev)) (drop : list nat) (nkeep : nat) (st : sterm) : list (str * column) :=
+  match st_f st with
+  | [] => [(s_intercept, vscale (st_scale st) (ones nkeep))]
+  | fs => map (fun nc => (fst nc, vscale (st_scale st) (snd nc)))
+              (kron (map (fun sf => match lookup_ev evs (sf_expr sf) with
+                                    | Some v => encode (sf_expr sf) v (sf_red sf) drop
+                                    | None => [] end) fs))
+  end.
+
 Definition build (d : frame) (nrows : nat) (c : cfg) (terms : list term) : res out :=
-  (* step 1: evaluate the pool of factors (order irrelevant), collect nulls *)
-  let pool := fold_left (fun acc f => if mem_s (fx f) (map fx acc) then acc else acc ++ [f]) (concat terms) [] in
-  do evs <- (fix go (l : list factor) (acc : list (str * ev)) : res (list (str * ev)) :=
-               match l with [] => inl (rev acc)
-               | f :: r => match eval_factor d f with inl v => go r ((fx f, v) :: acc) | inr e => inr e end end) pool [];
-  let all_nulls := flat_map (fun p => nulls_of (snd p)) evs in
-  match na_action c, all_nulls with
+  do evs <- eval_pool d (pool_of terms) [];
+  match na_action c, all_nulls evs with
   | NaRaise, _ :: _ => inr ENullRaise
   | _, _ =>
-    let drop := match na_action c with
-                | NaDrop => fold_right ins_n [] (caller_drop c ++ all_nulls)
-                | _ => fold_right ins_n [] (caller_drop c) end in
+    let drop := drop_set c evs in
     let nkeep := (nrows - length drop)%nat in
-    (* step 2: scoped terms, threading `spanned` *)
-    let '(per_term, _) :=
-      fold_left (fun (acc : list (list sterm) * list sterm) (t : term) =>
-        let '(done, spanned) := acc in
-        let evf := flat_map (fun f => match lookup_ev evs (fx f) with Some v => [(f, v)] | None => [] end) t in
-        match evf with
-        | [] => (done ++ [[]], spanned)
-        | _ =>
-          if has_zero evf then (done ++ [[]], spanned) else
-          if full_rank c then
-            let span := filter (fun s => negb (mem_st s spanned)) (spanned_by evf) in
-            (done ++ [simplify (S (nred span)) span], spanned ++ span)
-          else (done ++ [[unreduced_term evf]], spanned)
-        end) terms ([], []) in
-    (* step 3: columns per term (dict per term), then one dict for the frame *)
-    let cols_of (st : sterm) : list (str * column) :=
-      match st_f st with
-      | [] => [(s_intercept, vscale (st_scale st) (ones nkeep))]
-      | fs => map (fun nc => (fst nc, vscale (st_scale st) (snd nc)))
-                  (kron (map (fun sf => match lookup_ev evs (sf_expr sf) with
-                                        | Some v => encode (sf_expr sf) v (sf_red sf) drop
-                                        | None => [] end) fs))
-      end in
-    let term_cols := map (fun sts => fold_left (fun dct st => dict_update dct (cols_of st)) sts []) per_term in
+    let per_term := get_scoped_terms (full_rank c) evs terms in
+    (* a dict per term, then one dict for the frame *)
+    let term_cols := map (fun sts => fold_left (fun dct st => dict_update dct (cols_of evs drop nkeep st)) sts []) per_term in
     let final := fold_left dict_update term_cols [] in
     inl {| o_names := map fst final; o_cols := map snd final; o_drop := drop;
            o_struct := map (fun sts => map (fun st => (map (fun f => (sf_expr f, sf_red f)) (st_f st), st_scale st)) sts) per_term |}
